@@ -334,6 +334,55 @@ pub fn run(tier: Tier, report: &mut Report) {
         }
         report.completed.push(format!("all {} strings of length {n} x all offsets x all scanners/patterns x chunk {{1,2,16384}} x all read schedules", strings.len()));
     }
+    // second family — the full byte alphabet: for every byte value b outside the small alphabet,
+    // every string of length <= 3 (quick) / 4 (thorough) over {SP, LF, CR, b} that contains b.
+    // Settles per-byte classification (form feed, vertical tab, NUL, NEL/0x85, case variants of
+    // pattern bytes, bytes >= 0x80).
+    let l2 = tier.pick(3, 4);
+    let mut strings: Vec<Vec<u8>> = Vec::new();
+    for b in 0..=255u8 {
+        if ALPHABET.contains(&b) {
+            continue;
+        }
+        let a = [b' ', b'\n', b'\r', b];
+        for n in 1..=l2 {
+            for mut i in 0..4usize.pow(n as u32) {
+                let mut s = Vec::with_capacity(n);
+                for _ in 0..n {
+                    s.push(a[i % 4]);
+                    i /= 4;
+                }
+                if s.contains(&b) {
+                    strings.push(s);
+                }
+            }
+        }
+    }
+    let stop = std::sync::atomic::AtomicBool::new(false);
+    let total = mc_core::par::par_fold(
+        strings.len(),
+        threads,
+        Report::new,
+        |acc, i| {
+            if stop.load(std::sync::atomic::Ordering::Relaxed) {
+                return;
+            }
+            if budget.expired() {
+                stop.store(true, std::sync::atomic::Ordering::Relaxed);
+                return;
+            }
+            check_string(&strings[i], acc);
+            acc.states += 1;
+            acc.count("full_byte_alphabet_strings", 1);
+        },
+        |a, b| a.merge(b),
+    );
+    report.merge(total);
+    if stop.load(std::sync::atomic::Ordering::Relaxed) {
+        report.cap("time budget hit inside the full-byte-alphabet family".to_string());
+    } else {
+        report.completed.push(format!("all {} strings of length <= {l2} over {{SP,LF,CR,b}} containing b, for each of the 251 other byte values b, x all offsets x all scanners/patterns x chunks x all read schedules", strings.len()));
+    }
     report.traces = report.evaluations;
     // samples: a few concrete executions written out
     for (s, offset, scan, chunk, forced) in [
@@ -380,4 +429,4 @@ pub fn replay(v: &Value) -> (bool, String) {
     (!outcome.problems.is_empty(), text)
 }
 
-pub const RULE: &str = "every byte string up to the completed length over {SP,TAB,CR,LF,x} x every start offset 0..=len+1 x {tabs_or_spaces, newline, next_newline, fixed with every pattern of length <=3 over {x,SP,CR}, the empty pattern, the input's own continuations and two patterns longer than the input} x chunk size {1,2,16384} x every read schedule (all compositions reached, DFS over the size menu); executions are distinct by construction; non-trivial = at least two read() calls happened during the scan";
+pub const RULE: &str = "every byte string up to the completed length over {SP,TAB,CR,LF,x} (plus, for each of the 251 other byte values b, every string of length <= 3/4 over {SP,LF,CR,b} containing b) x every start offset 0..=len+1 x {tabs_or_spaces, newline, next_newline, fixed with every pattern of length <=3 over {x,SP,CR}, the empty pattern, the input's own continuations and two patterns longer than the input} x chunk size {1,2,16384} x every read schedule (all compositions reached, DFS over the size menu); executions are distinct by construction; non-trivial = at least two read() calls happened during the scan";
